@@ -137,9 +137,6 @@ def coords_to_sln_lie_algebra(coord_vector, dtype=None,
                            autoconvert=autoconvert)
 
 def linear_matrix_action(linear_map, n, **kwargs):
-    if "like" not in kwargs:
-        kwargs["like"] = linear_map
-
     base_ring, dtype = utils.check_type(**kwargs)
     map_matrix = utils.zeros((n*n, n*n), base_ring, dtype)
 
@@ -156,9 +153,6 @@ def linear_matrix_action(linear_map, n, **kwargs):
     return map_matrix
 
 def sln_linear_action(linear_map, n, **kwargs):
-    if "like" not in kwargs:
-        kwargs["like"] = linear_map
-
     base_ring, dtype = utils.check_type(**kwargs)
     map_matrix = utils.zeros((n**2 - 1, n**2 - 1), base_ring, dtype)
 
@@ -182,6 +176,9 @@ def sln_adjoint(mat, inv=None, **kwargs):
     if inv is None:
         inv = utils.invert(mat)
 
+    if "like" not in kwargs:
+        kwargs["like"] = mat
+
     return sln_linear_action(
         lambda M: mat @ M @ inv,
         n, **kwargs
@@ -191,6 +188,9 @@ def gln_adjoint(mat, inv=None, **kwargs):
     n = mat.shape[-1]
     if inv is None:
         inv = utils.invert(mat)
+
+    if "like" not in kwargs:
+        kwargs["like"] = mat
 
     return linear_matrix_action(
         lambda M: mat @ M @ inv,
